@@ -110,16 +110,21 @@ def _structure(
         # Recurse
         # The function given by name to dds.keep is recorded twice by the introspection: as the kept call, and right
         # after it as a plain reference to the function's name. The second one is the same node, not another call.
+        # (Only the first such record after a kept call: a plain call of the same function written right after the
+        # keep is a call.)
         sub_fis_list: List[FunctionInteractions] = []
+        just_kept = False
         for sub_fis in fis_.parsed_body:
             if (
-                sub_fis_list
+                just_kept
                 and sub_fis.store_path is None
                 and sub_fis_list[-1].store_path is not None
                 and sub_fis_list[-1].fun_path == sub_fis.fun_path
             ):
+                just_kept = False
                 continue
             sub_fis_list.append(sub_fis)
+            just_kept = sub_fis.store_path is not None
         sub_calls: List[Tuple[List[Node], FunctionInteractions]] = [
             (traverse(sub_fis), sub_fis) for sub_fis in sub_fis_list
         ]
